@@ -10,6 +10,7 @@ CONSTANTS
   ShardCaps = {1, 2}
   BatchMaxes = {2, 3}
   Modes = {"shared", "separate"}
+  Admission = "atomic"
 VIEW View
 INVARIANTS TypeOK QueuedWithinShardCap
 PROPERTIES C28_AckOrder C28_ExactlyOne C28_OutboundOrder C28_OutboundComplete C28_DrainFence C28_DrainCompletes
